@@ -453,6 +453,56 @@ theorem C13_generated_unique_discard (u : UState) (h : u.Inv) (a : Name) :
     have : x ≠ a := by rintro rfl; exact hn hx
     simpa using this
 
+theorem C13_unique_init_fold : ∀ (l s it : List Name), (∀ x, x ∈ s ↔ x ∈ it) →
+    let r := l.foldl (fun (s : List Name × List Name) item =>
+      if !(s.1.contains item) then (sAdd s.1 item, s.2 ++ [item]) else s) (s, it)
+    r.2 = it ++ uniq (l.filter fun x => !it.contains x) ∧ ∀ x, x ∈ r.1 ↔ x ∈ r.2 := by
+  intro l
+  induction l with
+  | nil => intro s it h; simpa [uniq] using h
+  | cons a l ih =>
+    intro s it h
+    have hc : s.contains a = it.contains a := by
+      rw [Bool.eq_iff_iff]; simp only [List.contains_iff_mem]; exact h a
+    simp only [List.foldl_cons]
+    by_cases ha : it.contains a = true
+    · simp only [hc, ha, Bool.not_true, Bool.false_eq_true, if_false, List.filter_cons]
+      exact ih s it h
+    · have ha' : it.contains a = false := by simpa using ha
+      have hs' : ∀ x, x ∈ sAdd s a ↔ x ∈ it ++ [a] := by
+        intro x
+        have : s.contains a = false := by rw [hc]; exact ha'
+        simp only [sAdd, this, Bool.false_eq_true, if_false, List.mem_append, List.mem_singleton, h x]
+      simp only [hc, ha', Bool.not_false, if_true, List.filter_cons]
+      obtain ⟨h1, h2⟩ := ih (sAdd s a) (it ++ [a]) hs'
+      refine ⟨?_, h2⟩
+      rw [h1]
+      simp only [uniq, List.append_assoc, List.singleton_append]
+      congr 2
+      rw [← uniq_filter, List.filter_filter]
+      congr 1
+      apply List.filter_congr
+      intro x _
+      rw [Bool.eq_iff_iff]
+      simp only [List.contains_iff_mem, List.mem_append, List.mem_singleton, Bool.not_eq_true', Bool.and_eq_true, bne_iff_ne, ne_eq,
+        decide_eq_false_iff_not, not_or]
+      constructor
+      · intro hx
+        have : ¬ (x ∈ it ∨ x = a) := by simpa [List.contains_iff_mem] using hx
+        exact ⟨fun e => this (Or.inr e), by simpa [List.contains_iff_mem] using fun e => this (Or.inl e)⟩
+      · rintro ⟨hne, hni⟩
+        have hni' : x ∉ it := by simpa [List.contains_iff_mem] using hni
+        simpa [List.contains_iff_mem] using And.intro hni' hne
+
+/-- `Unique(iterable)` of the current source keeps the first occurrences in order (the model's `uniq`) and establishes the invariant -/
+theorem C13_generated_unique_init (l : List Name) :
+    (Generated.unique_init l).items = uniq l ∧ (Generated.unique_init l).Inv := by
+  obtain ⟨h1, h2⟩ := C13_unique_init_fold l [] [] (by simp)
+  simp only [List.contains_nil, Bool.not_false, List.filter_true, List.nil_append] at h1
+  have hi : (Generated.unique_init l).items = uniq l := h1
+  refine ⟨hi, ?_, h2⟩
+  rw [hi]; exact nodup_uniq l
+
 end FCA
 #print axioms FCA.C13_generated_setitem
 #print axioms FCA.C13_generated_move_object
@@ -476,3 +526,4 @@ end FCA
 #print axioms FCA.C13_generated_rename_property
 #print axioms FCA.C13_generated_remove_empty_objects
 #print axioms FCA.C13_generated_remove_empty_properties
+#print axioms FCA.C13_generated_unique_init
